@@ -10,6 +10,13 @@ pub fn run(ctx: &Ctx) -> Outcome {
     if ctx.tier == Tier::Thorough {
         run_and_report(ctx, &rx(ctx.tier, 8, vec![MSS, 3], d), &mut out);
     }
+    // the peer's initial sequence number at the wrap (the number "before its first packet" wraps)
+    for isn in [0u16, 1, 65_535] {
+        run_and_report(ctx, &rx_peer_isn(ctx.tier, isn, ctx.tier.pick(6, 8)), &mut out);
+    }
+    for segs in [1usize, 2, 3] {
+        run_and_report(ctx, &rx_burst_fin(ctx.tier, segs, ctx.tier.pick(7, 9)), &mut out);
+    }
     run_and_report(ctx, &rx_rude(ctx.tier, d), &mut out);
     run_and_report(ctx, &rx_halfclosed(ctx.tier, d), &mut out);
     run_and_report(ctx, &rx_reader_gone(ctx.tier, ctx.tier.pick(8, 9)), &mut out);
